@@ -1,4 +1,5 @@
 From FluteV Require Import Model.ObjRecv Model.Recv Spec.RecvSpec.
+From FluteV Require Export Proofs.D48Step.
 From Coq Require Import Lia.
 Open Scope N_scope.
 
@@ -268,6 +269,9 @@ Section C17.
         rewrite (G _ (a_datalen p + 0)). split; lia.
   Qed.
 
+  Lemma ckc_d48_step o c : cache_keep_or_clear o (fst (d48_step o c)).
+  Proof. destruct (d48_step_cases o c) as [-> | ->]; [apply ckc_refl|apply ckc_complete]. Qed.
+
   (* the same frame for attaching an FDT instance: it never adds to the cache *)
   Theorem or_attach_cache_bounded M id files ioti o c :
     cache_ok M o -> cache_ok M (snd (fst (or_attach E id files ioti o c))).
@@ -276,7 +280,8 @@ Section C17.
     destruct (find _ files) as [f|]; [|exact OK].
     assert (G0 : forall o1, cache_keep_or_clear o o1 ->
       cache_ok M (snd (fst (let o2 := init_partition o1 in
-                            let (o3, c3) := init_writer E o2 c in
+                            let (o3a, c3a) := init_writer E o2 c in
+                            let (o3, c3) := d48_step o3a c3a in
                             let (o4, c4) := push_from_cache E o3 c3 in
                             let '(o5, c5) := match write_blocks E (S (length (r_blocks o4))) 0 o4 c4 with
                                              | (ROk x, cx) => (x, cx)
@@ -288,7 +293,9 @@ Section C17.
          cbv zeta beta iota; apply G0; split; cbn; auto. }
     intros o1 K1. cbv zeta.
     pose proof (ckc_init_partition o1) as K2. set (o2 := init_partition o1) in *.
-    pose proof (ckc_init_writer o2 c) as K3. destruct (init_writer E o2 c) as [o3 c3]. cbn [fst] in K3.
+    pose proof (ckc_init_writer o2 c) as K3a. destruct (init_writer E o2 c) as [o3a c3a]. cbn [fst] in K3a.
+    pose proof (ckc_d48_step o3a c3a) as K3b. destruct (d48_step o3a c3a) as [o3 c3]. cbn [fst] in K3b.
+    pose proof (ckc_trans _ _ _ K3a K3b) as K3.
     pose proof (ckc_push_from_cache o3 c3) as K4. destruct (push_from_cache E o3 c3) as [o4 c4]. cbn [fst] in K4.
     pose proof (ckc_write_blocks (S (length (r_blocks o4))) 0 o4 c4) as K5.
     destruct (write_blocks E (S (length (r_blocks o4))) 0 o4 c4) as [[o5|o5] c5]; cbn [fst res_obj] in K5.
